@@ -265,13 +265,31 @@ def compile_one(src_abs, key_name, flags, inc, index, kind="bc", force_src_text=
         out = os.path.join(tmpd, "out.bc")
         dep = os.path.join(tmpd, "out.d")
         cmd = [CLANGXX, "-c", "-emit-llvm", real_src, "-o", out, "-MD", "-MF", dep] + flags + extra_inc + inc
-        p = subprocess.run(cmd, stdout=subprocess.PIPE, stderr=subprocess.STDOUT, text=True, cwd=tmpd)
-        ok = p.returncode == 0 and os.path.exists(out)
-        if os.path.exists(dep):
-            deps = parse_depfile(dep)
-            deps = [_norm(src_abs if d == real_src else d) for d in deps]
-        else:
-            deps = None
+        for _attempt in range(4):
+            t_compile = time.time()
+            p = subprocess.run(cmd, stdout=subprocess.PIPE, stderr=subprocess.STDOUT, text=True, cwd=tmpd)
+            ok = p.returncode == 0 and os.path.exists(out)
+            if os.path.exists(dep):
+                deps = parse_depfile(dep)
+                deps = [_norm(src_abs if d == real_src else d) for d in deps]
+            else:
+                deps = None
+            # The cache key is computed from the dependency contents AFTER the compile: if any repository file was
+            # modified while the compiler was running, the object may not correspond to the contents we would hash.
+            unstable = False
+            for d in (deps or []):
+                dd = _denorm(d)
+                if dd.startswith(REPO + "/") or dd == src_abs:
+                    try:
+                        if os.stat(dd).st_mtime >= t_compile - 2.0:
+                            unstable = True
+                            break
+                    except OSError:
+                        unstable = True
+                        break
+            if not unstable:
+                break
+            time.sleep(2.5)  # let the editor finish; then compile again against settled files
         if deps is None or not ok:
             # failed compile: depend on every repo header + the TU so any edit retries
             deps = [_norm(src_abs)] + [_norm(x) for x in all_repo_headers()]
